@@ -331,3 +331,35 @@ def finding_key(c, got, exp):
     if op in ("retarget", "retarget_view"):
         return "retarget:silently-different-text"
     return "change_encoding:silently-different-text"
+
+
+# ------------------------------------------------------------------ history / aliasing probe (see core.run_check)
+def live_cases(tier, rng):
+    out = [c for c in cases("quick", rng) if c["op"] in ("enc_str", "enc_ragged", "change", "retarget", "change_view", "retarget_view")
+           and not isinstance(oracle(c), core.Skip)]
+    rng.shuffle(out)
+    return out[: (3000 if tier in ("thorough", "widen") else 700)]
+
+
+def impl_live(c):
+    """live encoded result of the call and a canonicaliser (decoded bytes), to be re-read after a later call"""
+    bnp, EncodedArray, EncodedRaggedArray, BaseEncoding, as_encoded_array, change_encoding, Err = _bnp()
+    op = c["op"]
+    if op in ("enc_str", "enc_ragged"):
+        E = _encs()[c["enc"]]
+        if op == "enc_str":
+            r = as_encoded_array(_text(c["s"]), E) if all(b < 128 for b in c["s"]) else \
+                as_encoded_array(EncodedArray(np.array(c["s"], dtype=np.uint8), BaseEncoding), E)
+            return r, (lambda o: {"codes": [int(x) for x in np.asarray(o.raw()).ravel()], "dec": [int(x) for x in E.decode(o).raw().ravel()],
+                                  "enc_same": bool(o.encoding == E)})
+        r = as_encoded_array([_text(x) for x in c["rows"]], E)
+        return r, (lambda o: {"rows": [[int(x) for x in row.raw()] for row in E.decode(o)]})
+    S, T = _enc_obj(c, "src", 0), _enc_obj(c, "tgt", 1)
+    if op in ("change", "retarget"):
+        x = as_encoded_array(_text(c["s"]), S)
+        y = as_encoded_array(x, T) if op == "retarget" else change_encoding(x, T)
+        return y, (lambda o: {"text": [int(v) for v in T.decode(o).raw().ravel()]})
+    x = as_encoded_array([_text(r) for r in c["rows"]], S)
+    v = _select_view(x, c)
+    y = as_encoded_array(v, T) if op == "retarget_view" else change_encoding(v, T)
+    return y, (lambda o: {"rows": [[int(b) for b in T.decode(row).raw().ravel()] for row in o]})
